@@ -472,10 +472,60 @@ class Synth:
             self.locktime_snippet()
         elif r < 0.90:
             self.O("CODESEPARATOR", 0)
+        elif r < 0.93:
+            self.checksig_snippet()
         elif r < 0.97 and level < 3:
             self.conditional(level)
         else:
             self.rare()
+
+    def checksig_snippet(self):
+        """CHECKSIG / CHECKMULTISIG on signature-like and key-like blobs (none of them verifies: encodings, counts, op-count, NULLFAIL)"""
+        rng = self.rng
+
+        def sigish():
+            r = rng.random()
+            if r < 0.35:
+                return b""
+            if r < 0.75:
+                return der_mutant(rng) + bytes([rng.choice(HASHTYPES)])
+            if r < 0.85:
+                return der_sig(rng.getrandbits(255) + 1, rng.getrandbits(250) + 1) + bytes([rng.choice(HASHTYPES)])
+            return rand_data(rng)[:80]
+
+        def keyish():
+            r = rng.random()
+            if r < 0.6:
+                return sec(rng.randrange(len(SECRETS)), rng.choice(KEYFORMS_OK))
+            if r < 0.85:
+                return sec(rng.randrange(len(SECRETS)), rng.choice(KEYFORMS_BAD))
+            return rand_data(rng)[:70]
+
+        if rng.random() < 0.5:
+            self.P(sigish())
+            self.P(keyish())
+            if rng.random() < 0.75:
+                self.O("CHECKSIG", -1)
+                if rng.random() < 0.6:
+                    self.O("NOT", 0)
+            else:
+                self.O("CHECKSIG", -1)
+                self.O("NOT", 0)
+                self.O("VERIFY", -1)
+        else:
+            nk = rng.choice([0, 1, 2, 3, 5, 20, 21])
+            ns = rng.randint(0, min(nk, 3)) if rng.random() < 0.9 else nk + 1
+            self.P(b"" if rng.random() < 0.8 else b"\x01")
+            for _ in range(ns):
+                self.P(sigish())
+            self.P(scriptnum(ns) if rng.random() < 0.9 else rand_num(rng))
+            for _ in range(nk):
+                self.P(keyish())
+            self.P(scriptnum(nk) if rng.random() < 0.9 else rand_num(rng))
+            self.O("CHECKMULTISIG", -(ns + nk + 2))
+            self.nops += nk
+            if rng.random() < 0.6:
+                self.O("NOT", 0)
 
     def locktime_snippet(self):
         rng = self.rng
@@ -1373,7 +1423,15 @@ def gen(ctx, emit):
             c = rand_ctx(rng)
             minimal = rng.random() < 0.6
             sv = "1" if rng.random() < 0.2 else "0"
-            cs.append(Case("eval", rand_eval_flags(rng), (synth_program(rng, minimal, S.parse_ctx(c)), rand_initial_stack(rng)), c, sv, tag="random-eval"))
+            prog, stack, fl = synth_program(rng, minimal, S.parse_ctx(c)), rand_initial_stack(rng), rand_eval_flags(rng)
+            if rng.random() < 0.04:
+                # a real signature over the whole script, checked by a prologue of the program
+                ki = rng.randrange(len(SECRETS))
+                pk = sec(ki, rng.choice(KEYFORMS_OK + KEYFORMS_OK + KEYFORMS_BAD))
+                prog = sc(push(pk), rng.choice(["CHECKSIGVERIFY", "CHECKSIGVERIFY", "CHECKSIG"])) + prog
+                base = Case("eval", fl, (prog, []), c, sv)
+                stack = stack + [sig_variant(rng, base.txinfo(), ki, prog, sv)[0]]
+            cs.append(Case("eval", fl, (prog, stack), c, sv, tag="random-eval"))
 
     batch(ctx.n(25000, 600000), random_evals)
     batch(ctx.n(6000, 100000), lambda k, cs: pipeline_scenarios(rng, k, cs))
